@@ -11,10 +11,10 @@ import (
 
 func init() {
 	register("C06", &propSpec{
-		technique: "static analysis: all-paths normalisation flow of the SNI key, must-pass lookup ordering (sibling of the vhost ladder), constant/field-flow checks of TLS defaults, exact guard-atom set of the strict-SNI rejection",
+		technique: "static analysis: all-paths normalisation flow of the SNI key, must-pass lookup ordering (sibling of the vhost ladder), constant/field-flow checks of TLS defaults, exact guard-atom set of the strict-SNI rejection; decision tables of configGroup.getConfig (opaque SNI labels) and SetDefaultTLSParams by abstract evaluation (E10)",
 		run:       runC06,
-		decided: "R1 every per-listener config lookup keyed by the SNI name uses the normalised (trimmed, lower-cased) name, in the order exact → wildcard ladder (ascending, all labels kept, first hit returned) → catch-all → arbitrary fallback, and GetConfigForClient returns the matched config's own tls.Config; " +
-			"R2 the default minimum version is a constant ≥ TLS 1.2 applied only when unset, TLS_FALLBACK_SCSV is prepended, and the standard tls.Config takes version range, client-auth policy and ALPN (with acme-tls/1) from the site's Config; " +
+		decided: "R1 the decision table of configGroup.getConfig (config groups of up to three over the keys exact, *.b.c, *.*.c, *.*.*, catch-all and two shorter patterns; SNI name in another letter case; opaque labels): the config of the most specific matching key is selected, an arbitrary one only when none matches; GetConfigForClient returns the matched config's own tls.Config; " +
+			"R2 the decision table of SetDefaultTLSParams: a site-set minimum version is kept, otherwise a constant ≥ TLS 1.2 is installed, TLS_FALLBACK_SCSV is first in the cipher list; and the standard tls.Config takes version range, client-auth policy and ALPN (with acme-tls/1) from the site's Config; " +
 			"R3 MakeTLSConfig returns an error when two configs of one listener disagree on Enabled, and propagates assertConfigsCompatible's error for a repeated hostname; " +
 			"R4 serveHTTP answers 403 under exactly {SNI matching not disabled, request arrived over TLS, site demands client certificates, SNI and Host differ ignoring case} — no further condition.",
 		notDecided: "what crypto/tls negotiates from these settings; certificate selection inside certmagic; the arbitrary last-resort config when nothing matches.",
